@@ -22,6 +22,10 @@ CHAIN_FAULTS = [
     "C.int-not-yet", "C.root-expired", "C.sig-corrupt-leaf", "C.sig-corrupt-int", "C.int-missing", "C.int-not-ca",
     "C.self-signed-leaf", "C.evil-root-in-x5c", "C.signer-ca-before-reversed-genuine-chain",
     "C.impostor-root-copied-ski", "C.impostor-root-copied-everything-but-key",
+    # chains that break a constraint rather than a signature or a date: more CA certificates below the root than its path
+    # length allows, an intermediate whose key usage does not include certificate signing, a leaf outside the name space
+    # its issuer is constrained to
+    "C.pathlen-exceeded", "C.int-no-keycertsign", "C.name-constraint-permits-other-names-only",
     # a certificate that also carries a critical extension nobody knows: path validation refuses such a certificate by
     # itself, and whatever else is wrong with the chain stays wrong
     "C.leaf-unknown-critical-ext", "C.untrusted-issuer-and-unknown-critical-ext", "C.leaf-expired-and-unknown-critical-ext",
@@ -29,7 +33,8 @@ CHAIN_FAULTS = [
 ]
 UNKNOWN_CRITICAL_EXT = (x509.UnrecognizedExtension(x509.ObjectIdentifier("2.23.133.99.1"), b"\x05\x00"), True)
 # faults that only mean something when the chain has an intermediate (one is added if none was asked for)
-NEED_INTERMEDIATE = {"C.int-expired", "C.int-not-yet", "C.sig-corrupt-int", "C.int-missing", "C.int-not-ca"}
+NEED_INTERMEDIATE = {"C.int-expired", "C.int-not-yet", "C.sig-corrupt-int", "C.int-missing", "C.int-not-ca",
+                     "C.pathlen-exceeded", "C.int-no-keycertsign", "C.name-constraint-permits-other-names-only"}
 
 # validity windows as (not_before, not_after) offsets from base_time
 DEFAULT_VALIDITY = {"root": (-3650 * DAY, 3650 * DAY), "int": (-1825 * DAY, 1825 * DAY), "leaf": (-30 * DAY, 365 * DAY)}
@@ -181,8 +186,9 @@ def _aki(issuer_key):
     return (x509.AuthorityKeyIdentifier.from_issuer_public_key(issuer_key.public_key()), False)
 
 
-def _root(cn: str, key, window, base, key_ids: bool = False) -> x509.Certificate:
-    return make_cert(cn, None, key, key.public_key(), ca=True, extensions=[_ski(key)] if key_ids else (), **_dates(window, base))
+def _root(cn: str, key, window, base, key_ids: bool = False, path_len=None) -> x509.Certificate:
+    return make_cert(cn, None, key, key.public_key(), ca=True, path_len=path_len, extensions=[_ski(key)] if key_ids else (),
+                     **_dates(window, base))
 
 
 def _intermediate(idx: int, issuer_cert, issuer_key, key, window, base, faults: set, key_ids: bool = False) -> x509.Certificate:
@@ -191,6 +197,14 @@ def _intermediate(idx: int, issuer_cert, issuer_key, key, window, base, faults: 
     ids = [_ski(key), _aki(issuer_key)] if key_ids else []
     if "C.int-not-ca" in hit:
         constraints = {"ca": False, "extensions": [(KEY_USAGE_CA, True)] + ids}
+    elif "C.int-no-keycertsign" in hit:
+        ku = x509.KeyUsage(digital_signature=True, content_commitment=False, key_encipherment=False, data_encipherment=False,
+                           key_agreement=False, key_cert_sign=False, crl_sign=False, encipher_only=False, decipher_only=False)
+        constraints = {"ca": None, "extensions": [(x509.BasicConstraints(ca=True, path_length=idx), True), (ku, True)] + ids}
+    elif "C.name-constraint-permits-other-names-only" in hit:
+        nc = x509.NameConstraints(permitted_subtrees=[x509.DirectoryName(x509.Name([x509.NameAttribute(NameOID.ORGANIZATION_NAME, "Sim Permitted Org Only")]))],
+                                  excluded_subtrees=None)
+        constraints = {"ca": True, "path_len": idx, "extensions": [(nc, True)] + ids}
     else:
         constraints = {"ca": True, "path_len": idx, "extensions": ids}
     return make_cert(f"Sim Attestation Intermediate CA {idx}", issuer_cert, issuer_key, key.public_key(),
@@ -238,7 +252,8 @@ def build_chain(leaf_pubkey, *, leaf_subject: Optional[x509.Name] = None, leaf_e
 
     # key_ids: the CA certificates carry a SubjectKeyIdentifier and everything issued an AuthorityKeyIdentifier (RFC 5280
     # 4.2.1.1 / 4.2.1.2) - what lets a verifier tell two CA certificates with one name apart
-    real_root = _root(ROOT_NAME, root_key, _window("root", validity, faults), base, key_ids)
+    real_root = _root(ROOT_NAME, root_key, _window("root", validity, faults), base, key_ids,
+                      path_len=0 if "C.pathlen-exceeded" in faults else None)
     issuer_cert, issuer_key = real_root, root_key
     genuine_root = None
     if "C.impostor-root-copied-ski" in faults:
